@@ -402,6 +402,9 @@ func (s *efState) shortPkg(fn *ssa.Function) string {
 		}
 		return fn.Pkg.Pkg.Path()
 	}
+	if w := wrappedMethod(fn); w != nil && w != fn && w.Pkg != nil {
+		return s.shortPkg(w) // a synthetic wrapper: the package of the method it wraps
+	}
 	return ""
 }
 
@@ -732,18 +735,22 @@ func (s *efState) dfsParam(p *ssa.Parameter, seen map[ssa.Value]bool, set map[*E
 			idx = i
 		}
 	}
-	node := s.cg.Nodes[fn]
 	found := false
-	if node != nil && idx >= 0 {
-		for _, e := range node.In {
-			if e.Site == nil {
-				continue
-			}
-			c := e.Site.Common()
+	if idx >= 0 {
+		// static call sites; a call of the pointer-receiver wrapper go/ssa makes for a value-receiver method enters
+		// the method with the same arguments after the receiver (synthwrap.go): the wrapper is looked through, it
+		// is never a caller of its own
+		direct, wrapped := staticSites(s.cg, fn)
+		for i, site := range append(direct, wrapped...) {
+			c := site.Common()
 			if c.IsInvoke() || idx >= len(c.Args) {
 				continue
 			}
-			if _, isGo := e.Site.(*ssa.Go); isGo {
+			if _, isGo := site.(*ssa.Go); isGo {
+				continue
+			}
+			if i >= len(direct) && idx == 0 && fn.Signature.Recv() != nil {
+				s.unknown(p, "receiver-through-wrapper", set)
 				continue
 			}
 			found = true
@@ -762,6 +769,20 @@ func (s *efState) dfsParam(p *ssa.Parameter, seen map[ssa.Value]bool, set map[*E
 			if a, ok := argFor(c, fn, idx); ok {
 				found = true
 				s.dfs(a, seen, set)
+			}
+		}
+	}
+	// interface method calls that can run fn (enumerable ones: closedworld.go)
+	if idx >= 0 {
+		for _, site := range closedWorldOf(s.prog).invokeSites(s.fv.fns, fn) {
+			if _, isGo := site.(*ssa.Go); isGo {
+				continue
+			}
+			if a, ok := invokeArg(site, fn, idx); ok {
+				found = true
+				s.dfs(a, seen, set)
+			} else {
+				s.unknown(p, "receiver-of-invoke", set)
 			}
 		}
 	}
@@ -808,6 +829,13 @@ func (s *efState) dfsCall(call *ssa.Call, resIdx int, seen map[ssa.Value]bool, s
 		}
 		if c.Method.Name() == "Unwrap" {
 			s.dfs(c.Value, seen, set)
+			return
+		}
+		// a method with an unexported name: the methods of that name in its package are all it can run (closedworld.go)
+		if ts, ok := s.invokeTargets(c); ok {
+			for _, t := range ts {
+				set[s.funNode(t, resIdx)] = true
+			}
 			return
 		}
 		s.unknown(call, "invoke:"+c.Method.Name(), set)
@@ -887,7 +915,13 @@ func (s *efState) dfsErrPkgCall(call *ssa.Call, callee *ssa.Function, seen map[s
 			s.dfs(c.Args[0], seen, set)
 			return
 		}
+		if s.dfsPassThrough(call, callee, seen, set) {
+			return
+		}
 		s.unknown(call, "errors-method:"+callee.Name(), set)
+		return
+	}
+	if s.dfsPassThrough(call, callee, seen, set) {
 		return
 	}
 	if !s.errorish(callee.Signature.Results().At(0).Type()) {
@@ -906,13 +940,14 @@ type bsum struct {
 	code       string
 	codeParam  int
 	causeParam int
+	selfParam  int // the result is the *Error parameter of this index, possibly decorated (With...): passthru.go
 }
 
 func (s *efState) summary(fn *ssa.Function) *bsum {
 	if b, ok := s.sums[fn]; ok {
 		return b
 	}
-	b := &bsum{codeParam: -1, causeParam: -1}
+	b := &bsum{codeParam: -1, causeParam: -1, selfParam: -1}
 	s.sums[fn] = b
 	if len(fn.Blocks) == 0 {
 		return b
@@ -925,15 +960,15 @@ func (s *efState) summary(fn *ssa.Function) *bsum {
 			if !ok || len(r.Results) == 0 {
 				continue
 			}
-			code, cp, cause, ok2 := s.chain(r.Results[0], fn, map[ssa.Value]bool{})
+			code, cp, cause, self, ok2 := s.chain(r.Results[0], fn, map[ssa.Value]bool{})
 			if !ok2 {
 				okAll = false
 				continue
 			}
 			if first {
-				b.code, b.codeParam, b.causeParam = code, cp, cause
+				b.code, b.codeParam, b.causeParam, b.selfParam = code, cp, cause, self
 				first = false
-			} else if b.code != code || b.codeParam != cp {
+			} else if b.code != code || b.codeParam != cp || b.selfParam != self {
 				okAll = false
 			} else if cause >= 0 {
 				b.causeParam = cause
@@ -954,10 +989,10 @@ func paramIndex(fn *ssa.Function, v ssa.Value) int {
 }
 
 // chain: resolve a *errors.Error-valued expression inside fn to (code const | code param, cause param)
-func (s *efState) chain(v ssa.Value, fn *ssa.Function, seen map[ssa.Value]bool) (code string, codeParam, causeParam int, ok bool) {
-	codeParam, causeParam = -1, -1
+func (s *efState) chain(v ssa.Value, fn *ssa.Function, seen map[ssa.Value]bool) (code string, codeParam, causeParam, selfParam int, ok bool) {
+	codeParam, causeParam, selfParam = -1, -1, -1
 	if seen[v] {
-		return "", -1, -1, false
+		return "", -1, -1, -1, false
 	}
 	seen[v] = true
 	defer func() { delete(seen, v) }() // seen = the current path only: a value may be reached along several phi edges
@@ -970,26 +1005,26 @@ func (s *efState) chain(v ssa.Value, fn *ssa.Function, seen map[ssa.Value]bool) 
 			if seen[e] {
 				continue
 			}
-			c, cp, ca, o := s.chain(e, fn, seen)
+			c, cp, ca, sp, o := s.chain(e, fn, seen)
 			if !o {
-				return "", -1, -1, false
+				return "", -1, -1, -1, false
 			}
 			if first {
-				code, codeParam, causeParam, first = c, cp, ca, false
+				code, codeParam, causeParam, selfParam, first = c, cp, ca, sp, false
 			} else {
-				if c != code || cp != codeParam {
-					return "", -1, -1, false
+				if c != code || cp != codeParam || sp != selfParam {
+					return "", -1, -1, -1, false
 				}
 				if ca >= 0 {
 					causeParam = ca
 				}
 			}
 		}
-		return code, codeParam, causeParam, !first
+		return code, codeParam, causeParam, selfParam, !first
 	case *ssa.Call:
 		callee := staticCallee(x.Common())
 		if callee == nil || callee.Pkg != s.errPkg {
-			return "", -1, -1, false
+			return "", -1, -1, -1, false
 		}
 		args := x.Common().Args
 		if callee.Signature.Recv() != nil {
@@ -997,23 +1032,34 @@ func (s *efState) chain(v ssa.Value, fn *ssa.Function, seen map[ssa.Value]bool) 
 			case "WithContext", "WithHint":
 				return s.chain(args[0], fn, seen)
 			case "WithCause":
-				c, cp, _, o := s.chain(args[0], fn, seen)
-				return c, cp, paramIndex(fn, args[1]), o
+				c, cp, _, sp, o := s.chain(args[0], fn, seen)
+				return c, cp, paramIndex(fn, args[1]), sp, o
 			}
-			return "", -1, -1, false
+			// any other method: by its own summary (a method that decorates and returns its receiver)
 		}
 		if callee.Name() == "NewError" {
 			if k, ok := args[0].(*ssa.Const); ok && k.Value != nil && k.Value.Kind() == constant.String {
-				return constant.StringVal(k.Value), -1, -1, true
+				return constant.StringVal(k.Value), -1, -1, -1, true
 			}
 			if pi := paramIndex(fn, args[0]); pi >= 0 {
-				return "", pi, -1, true
+				return "", pi, -1, -1, true
 			}
-			return "", -1, -1, false
+			return "", -1, -1, -1, false
 		}
 		sub := s.summary(callee)
 		if !sub.ok {
-			return "", -1, -1, false
+			return "", -1, -1, -1, false
+		}
+		if sub.selfParam >= 0 {
+			// the callee hands back its *Error argument (decorated): the chain goes on in that argument
+			if sub.selfParam >= len(args) {
+				return "", -1, -1, -1, false
+			}
+			c, cp, ca, sp, o := s.chain(args[sub.selfParam], fn, seen)
+			if o && sub.causeParam >= 0 && sub.causeParam < len(args) {
+				ca = paramIndex(fn, args[sub.causeParam])
+			}
+			return c, cp, ca, sp, o
 		}
 		code = sub.code
 		if sub.codeParam >= 0 {
@@ -1023,13 +1069,19 @@ func (s *efState) chain(v ssa.Value, fn *ssa.Function, seen map[ssa.Value]bool) 
 			} else if pi := paramIndex(fn, a); pi >= 0 {
 				codeParam = pi
 			} else {
-				return "", -1, -1, false
+				return "", -1, -1, -1, false
 			}
 		}
 		if sub.causeParam >= 0 {
 			causeParam = paramIndex(fn, args[sub.causeParam])
 		}
-		return code, codeParam, causeParam, true
+		return code, codeParam, causeParam, -1, true
+	case *ssa.Parameter:
+		// the builder decorates and hands back an *Error it was given (hinted(err, ..)): nothing in it may set the code
+		if pi := paramIndex(fn, x); pi >= 0 && s.isErrPtr(x.Type()) && s.paramCodeStable(fn, x) {
+			return "", -1, -1, pi, true
+		}
+		return "", -1, -1, -1, false
 	case *ssa.Alloc:
 		// &Error{Code: K, ...}
 		for _, ref := range *x.Referrers() {
@@ -1039,19 +1091,19 @@ func (s *efState) chain(v ssa.Value, fn *ssa.Function, seen map[ssa.Value]bool) 
 					for _, r2 := range *fa.Referrers() {
 						if sto, ok := r2.(*ssa.Store); ok {
 							if k, ok := sto.Val.(*ssa.Const); ok && k.Value != nil && k.Value.Kind() == constant.String {
-								return constant.StringVal(k.Value), -1, -1, true
+								return constant.StringVal(k.Value), -1, -1, -1, true
 							}
 							if pi := paramIndex(fn, sto.Val); pi >= 0 {
-								return "", pi, -1, true
+								return "", pi, -1, -1, true
 							}
 						}
 					}
 				}
 			}
 		}
-		return "", -1, -1, false
+		return "", -1, -1, -1, false
 	}
-	return "", -1, -1, false
+	return "", -1, -1, -1, false
 }
 
 // codeOfChain: the code of a *errors.Error value at a call site in the scope packages, plus the string / error
@@ -1074,10 +1126,12 @@ func (s *efState) codeOfChain(v ssa.Value, seen map[ssa.Value]bool) (code string
 			case "WithContext", "WithHint", "WithCause":
 				return s.codeOfChain(args[0], seen)
 			}
-			return "", nil, false
+			if sub := s.summary(callee); !sub.ok || sub.selfParam < 0 {
+				return "", nil, false
+			}
 		}
-		code, ok := s.callCode(x, callee)
-		return code, args, ok
+		code, inner, ok := s.callCodeArgs(x, callee, seen)
+		return code, append(append([]ssa.Value{}, args...), inner...), ok
 	case *ssa.Phi:
 		first := true
 		for _, e := range x.Edges {
@@ -1103,24 +1157,36 @@ func (s *efState) codeOfChain(v ssa.Value, seen map[ssa.Value]bool) (code string
 
 // callCode: the code of a direct builder call
 func (s *efState) callCode(call *ssa.Call, callee *ssa.Function) (string, bool) {
+	code, _, ok := s.callCodeArgs(call, callee, map[ssa.Value]bool{})
+	return code, ok
+}
+
+// callCodeArgs: callCode; inner = the operands of the construction behind a pass-through builder's *Error argument
+func (s *efState) callCodeArgs(call *ssa.Call, callee *ssa.Function, seen map[ssa.Value]bool) (code string, inner []ssa.Value, ok bool) {
 	args := call.Common().Args
 	if callee.Name() == "NewError" {
 		if k, ok := args[0].(*ssa.Const); ok && k.Value != nil && k.Value.Kind() == constant.String {
-			return constant.StringVal(k.Value), true
+			return constant.StringVal(k.Value), nil, true
 		}
-		return "", false
+		return "", nil, false
 	}
 	sub := s.summary(callee)
 	if !sub.ok {
-		return "", false
+		return "", nil, false
+	}
+	if sub.selfParam >= 0 {
+		if sub.selfParam >= len(args) {
+			return "", nil, false
+		}
+		return s.codeOfChain(args[sub.selfParam], seen)
 	}
 	if sub.codeParam >= 0 {
 		if k, ok := args[sub.codeParam].(*ssa.Const); ok && k.Value != nil && k.Value.Kind() == constant.String {
-			return constant.StringVal(k.Value), true
+			return constant.StringVal(k.Value), nil, true
 		}
-		return "", false
+		return "", nil, false
 	}
-	return sub.code, true
+	return sub.code, nil, true
 }
 
 // ---- constructor sites ---------------------------------------------------------------------------------
@@ -1299,6 +1365,7 @@ func (s *efState) fillCall(n *EFNode, call *ssa.Call) {
 	if callee == nil {
 		return
 	}
+	selfIdx, causeIdx := s.causeAttacher(callee, len(c.Args))
 	switch {
 	case callee.String() == "errors.New":
 		return
@@ -1339,8 +1406,9 @@ func (s *efState) fillCall(n *EFNode, call *ssa.Call) {
 		} else if len(n.Dropped) > 0 {
 			n.Kind = "rewrapv"
 		}
-	case callee.Pkg == s.errPkg && callee.Signature.Recv() != nil && callee.Name() == "WithCause":
-		code, args, ok := s.codeOfChain(c.Args[0], map[ssa.Value]bool{})
+	case callee.Pkg == s.errPkg && selfIdx >= 0:
+		// err.WithCause(cause), or a helper of pkg/errors that hands back its *Error argument with a cause attached
+		code, args, ok := s.codeOfChain(c.Args[selfIdx], map[ssa.Value]bool{})
 		if ok {
 			n.Code = code
 		} else {
@@ -1354,9 +1422,9 @@ func (s *efState) fillCall(n *EFNode, call *ssa.Call) {
 				}
 			}
 		}
-		n.Inner = append(n.Inner, s.flow(c.Args[1], n)...)
+		n.Inner = append(n.Inner, s.flow(c.Args[causeIdx], n)...)
 		kept := map[ssa.Value]bool{}
-		s.dfs(c.Args[1], kept, map[*EFNode]bool{})
+		s.dfs(c.Args[causeIdx], kept, map[*EFNode]bool{})
 		for _, a := range args {
 			var es []ssa.Value
 			s.strErrs(a, map[ssa.Value]bool{}, &es)
@@ -1519,7 +1587,8 @@ type puseKey struct {
 func (s *efState) callTargets(call *ssa.Call) []*ssa.Function {
 	c := call.Common()
 	if c.IsInvoke() {
-		return nil
+		ts, _ := s.invokeTargets(c)
+		return ts
 	}
 	if f := staticCallee(c); f != nil {
 		if inModule(f) && len(f.Blocks) > 0 && f.Pkg != s.errPkg {
@@ -1888,7 +1957,7 @@ func (s *efState) replaceAndSwallow(fns []*ssa.Function, out *EFOut) {
 						continue // external callee: its error is not one of ours
 					}
 				} else if !isPoll {
-					if _, isB := call.Common().Value.(*ssa.Builtin); isB || call.Common().IsInvoke() {
+					if _, isB := call.Common().Value.(*ssa.Builtin); isB || (call.Common().IsInvoke() && !s.invokeInScope(call.Common())) {
 						continue
 					}
 				}
